@@ -1344,7 +1344,10 @@ class Interp:
         return self.call(fn, args, kwargs)
 
     def e_ListComp(self, n):
-        return PyList(self.comprehension(n, lambda: self.eval(n.elt)))
+        r = self.comprehension(n, lambda: self.eval(n.elt))
+        if isinstance(r, CharCodes):
+            return r
+        return PyList(r)
 
     def e_SetComp(self, n):
         return PySet(self.comprehension(n, lambda: self.eval(n.elt)))
